@@ -483,6 +483,13 @@ class DeferredSender (threading.Thread):
           self._waker.pongAll()
 
         for con in elist:
+          # The IO task ends a connection whose socket is in an exceptional
+          # condition; forgetting its data alone would leave a hole in the
+          # stream if anything more were sent before the task gets to it
+          try:
+            con.disconnect("exceptional condition on socket")
+          except:
+            pass
           try:
             del self._dataForConnection[con]
           except:
